@@ -1,5 +1,6 @@
 import SF.Lemmas.SpecFacts
 import SF.Lemmas.Real
+import SF.Lemmas.Cog
 /-
   C06 — Trend indicators are true correlation measures of the window.
   `Spec.kendall`, `Spec.pearsonIdx`, `Spec.cog` ARE the statement's definitions (all n(n−1)/2 pairs with ties
@@ -14,6 +15,12 @@ namespace SF.C06
 open SF SF.Spec
 set_option linter.unusedSectionVars false
 variable {α : Type} [Field α] [LinearOrder α] [IsStrictOrderedRing α]
+
+/-- **CenterOfGravity's state machine equals the statement's formula** (n+1)/2 − Σ_k k·x_(t−k+1) / Σ_k x_(t−k+1), k = 1 newest,
+over exactly the values currently in the window (all values so far before it is full), 0 when the denominator is 0;
+every N ≥ 1, every history, every step -/
+theorem cog_eq [FloatLike α] [ExactScalar α] (N : Nat) (hN : 0 < N) (xs : List α) :
+    (cogCore (α := α) N).outAfter xs = .ok (Spec.cog N xs) := Cog.outAfter_eq N hN xs
 
 theorem sgn0_pos (d : α) (h : 0 < d) : sgn0 d = 1 := by simp [sgn0, h]
 theorem sgn0_neg' (d : α) (h : d < 0) : sgn0 d = -1 := by simp [sgn0, h, not_lt.mpr (le_of_lt h)]
